@@ -65,6 +65,11 @@ type poller struct {
 	// entails writing a single byte to the write end of the wakeupPipe.
 	posts []func()
 
+	// spare is the slice p.posts is swapped with while the queued handlers run; running is the number of handlers taken
+	// out of p.posts that have not run yet (accessed atomically; spare is protected by lck).
+	spare   []func()
+	running int64
+
 	// lck synchronizes access to the posts slice.
 	// This is needed because multiple goroutines can call ioc.Post(...)
 	// on the same IO object.
@@ -143,7 +148,7 @@ func (p *poller) Posted() int {
 	p.lck.Lock()
 	defer p.lck.Unlock()
 
-	return len(p.posts)
+	return len(p.posts) + int(atomic.LoadInt64(&p.running))
 }
 
 func (p *poller) Poll(timeoutMs int) (n int, err error) {
@@ -218,12 +223,23 @@ func (p *poller) dispatch() {
 		}
 	}
 
+	// Take the queued handlers and run them without holding the lock: a handler may Post again (from this goroutine or
+	// by waiting on another one that does), which must not deadlock. Handlers posted meanwhile run in the next cycle.
 	p.lck.Lock()
-	for _, handler := range p.posts {
+	posts := p.posts
+	p.posts = p.spare[:0]
+	atomic.StoreInt64(&p.running, int64(len(posts)))
+	p.lck.Unlock()
+
+	for i, handler := range posts {
 		handler()
+		posts[i] = nil
+		atomic.AddInt64(&p.running, -1)
 		atomic.AddInt64(&p.pending, -1)
 	}
-	p.posts = p.posts[:0]
+
+	p.lck.Lock()
+	p.spare = posts[:0]
 	p.lck.Unlock()
 }
 
